@@ -199,6 +199,9 @@ pub struct TextVisitor {
     pub mode: Mode,
     /// run every entry point on core nodes (otherwise a reduced set)
     pub all_entries: bool,
+    /// nodes whose text is at most this long are run through every entry point even when
+    /// `all_entries` is off (C02 / C05: the long tail of the trees uses three entry points)
+    pub short_all: usize,
 }
 
 impl TextVisitor {
@@ -250,6 +253,32 @@ impl TextVisitor {
                 }
             }
             Mode::C07 => {
+                // the environment answers an error after the last character of this prefix: an
+                // error that occurs strictly before it wins, otherwise the stream error is reported
+                // at the number of bytes consumed (the rule C07 states for ill-formed UTF-8, which
+                // parse_slice implements with exactly this mechanism)
+                if !n.post {
+                    let (out, pulls, intact) = observed_failing(text, STRICT);
+                    t.evals += 1;
+                    let earlier = n.dead.is_some() || n.mach.first_untolerated(false, false).is_some();
+                    let r = if earlier {
+                        check(&out, &exp, text.as_bytes())
+                    } else if out == Out::Err(EK::Stream(text.len())) {
+                        Ok(())
+                    } else {
+                        Err(format!("expected Stream({}), observed {}", text.len(), out.brief()))
+                    };
+                    if let Err(e) = r {
+                        t.violation("", format!("parse_utf8_with over a source that fails after this text: {e}"), text_case(text, strict, "parse_utf8_with(failing source)"));
+                    }
+                    if !intact {
+                        t.violation("", "the stream error does not carry the source's error value".to_string(), text_case(text, strict, "parse_utf8_with(failing source)"));
+                    }
+                    if pulls.after_error {
+                        t.violation("", "the parser pulled its input again after an error answer".to_string(), text_case(text, strict, "parse_utf8_with(failing source)"));
+                    }
+                    t.outcome(if earlier { "failing source: earlier error wins" } else { "failing source: stream error at the bytes consumed" });
+                }
                 if exp == Expect::Accept {
                     t.outcome("accepted (not in scope)");
                     return;
@@ -308,7 +337,7 @@ impl TextVisitor {
                     ("parse_str", str_entry(text, STRICT)),
                     ("parse_slice", slice_entry_default(text.as_bytes())),
                 ];
-                if self.all_entries {
+                if self.all_entries || text.len() <= self.short_all {
                     entries.extend(all_strict_text_entry_points(text));
                 }
                 for (name, o) in entries {
@@ -388,6 +417,15 @@ impl TextVisitor {
                     }
                     if pulls.items > nchars {
                         t.violation("", format!("pulled {} items from an input of {nchars} characters", pulls.items), text_case(text, rec, "parse_utf8_with"));
+                    }
+                    // the same input from a source that answers an error after the last character
+                    let (fo, fp, _) = observed_failing(text, options(rec.0, rec.1));
+                    t.evals += 1;
+                    if !matches!(fo, Out::Err(_)) {
+                        t.violation("", format!("parse_utf8_with over a failing source under {rec:?} did not return an error: {}", fo.brief()), text_case(text, rec, "parse_utf8_with(failing source)"));
+                    }
+                    if fp.after_error || fp.items > nchars + 1 {
+                        t.violation("", format!("failing source: pulled {} items (after the error answer: {}) from {nchars} characters", fp.items, fp.after_error), text_case(text, rec, "parse_utf8_with(failing source)"));
                     }
                     let o2 = slice_entry(text.as_bytes(), options(rec.0, rec.1));
                     t.evals += 1;
@@ -902,12 +940,20 @@ fn x_case_struct(text: &str, mode: Mode, t: &mut Tally) {
         }
     };
     t.outcome("spill");
-    for (name, o) in [("parse_str", str_entry(text, STRICT)), ("parse_slice", slice_entry_default(text.as_bytes())), ("parse_utf8_with(observed)", observed(text, STRICT).0)] {
+    let mut entries = vec![("parse_utf8_with(observed)", observed(text, STRICT).0)];
+    if text.len() <= 4096 {
+        entries.extend(all_strict_text_entry_points(text));
+    } else {
+        entries.push(("parse_str", str_entry(text, STRICT)));
+        entries.push(("parse_slice", slice_entry_default(text.as_bytes())));
+    }
+    for (name, o) in entries {
         t.evals += 1;
         match &o {
             Out::Ok(v, map) => {
                 let r = match mode {
                     Mode::C02 => check_value(v, &doc),
+                    Mode::C05 if name == "FromStr" => Ok(()),
                     Mode::C05 => check_map(v, map, &doc, text.len()),
                     _ => Ok(()),
                 };
@@ -1169,5 +1215,34 @@ pub fn whitespace_family(rep: &mut Report, mode: Mode) {
         }
     }
     rep.bounds["whitespace-family"] = json!({"documents": docs.len(), "whitespace": ws});
+    rep.absorb(t);
+}
+
+/// The named option records: `strict()` and `Default` relax nothing, `flexible()` relaxes both
+/// surrogate checks (C01 speaks of "explicit strict options", C12 of the four combinations).
+pub fn option_presets(rep: &mut Report) {
+    use json_syntax::parse::Options;
+    let mut t = Tally::new();
+    t.evals += 3;
+    let s = Options::strict();
+    let d = Options::default();
+    let f = Options::flexible();
+    for (name, o, want) in [("Options::strict()", s, (false, false)), ("Options::default()", d, (false, false)), ("Options::flexible()", f, (true, true))] {
+        if (o.accept_truncated_surrogate_pair, o.accept_invalid_codepoints) != want {
+            t.violation("", format!("{name} is {:?}, documented as {want:?}", (o.accept_truncated_surrogate_pair, o.accept_invalid_codepoints)), json!({"kind": "preset", "name": name}));
+        }
+    }
+    // and they behave accordingly on the two kinds of surrogate fault
+    for (text, which) in [("\"\\uD800\"", 0usize), ("\"\\uDC00\"", 1)] {
+        for (name, o, rec) in [("strict()", Options::strict(), (false, false)), ("default()", Options::default(), (false, false)), ("flexible()", Options::flexible(), (true, true))] {
+            t.evals += 1;
+            let got = matches!(str_entry(text, o), Out::Ok(..));
+            let want = if which == 0 { rec.0 } else { rec.1 };
+            if got != want {
+                t.violation("", format!("Options::{name} {} {text}", if got { "accepts" } else { "rejects" }), text_case(text, rec, "parse_str_with"));
+            }
+        }
+    }
+    t.outcome("option presets");
     rep.absorb(t);
 }
